@@ -196,6 +196,14 @@ func genConsts(repo, out string) error {
 		wired = 1
 	}
 	fmt.Fprintf(&b, "Definition gen_oracle_keeper_uses_default_threshold : Z := %d%%Z.\n", wired)
+	// the relayer's confirmation depth, and the order of the externally visible actions of one iteration of its scanning loop
+	rc := Consts(repo, "cmd/ebrelayer/relayer/ethereum.go")
+	fmt.Fprintf(&b, "Definition gen_trailing_blocks : Z := %s%%Z.\n", numOr(rc["trailingBlocks"]))
+	var order []string
+	for _, c := range loopCalls(repo) {
+		order = append(order, coqString(c))
+	}
+	fmt.Fprintf(&b, "Definition gen_relayer_loop_actions : list string := [%s].\n", strings.Join(order, "; "))
 	return writeV(out, "Consts.v", b.String())
 }
 
@@ -247,4 +255,33 @@ func genMintSites(repo, out string) error {
 	body := fmt.Sprintf("Definition gen_mint_sites : list (string * string) := [%s].\nDefinition gen_controller_writers : list (string * string) := [%s].\n",
 		strings.Join(items, ";\n  "), strings.Join(citems, ";\n  "))
 	return writeV(out, "MintSites.v", body)
+}
+
+// loopCalls lists, in source order, the calls of EthereumSub.Start that talk to the outside: the cursor read
+// (DB.Get), the log query (FilterLogs), the submission (handleEthereumEvent) and the cursor write (DB.Put).
+func loopCalls(repo string) []string {
+	fset := token.NewFileSet()
+	f, err := parser.ParseFile(fset, filepath.Join(repo, "cmd/ebrelayer/relayer/ethereum.go"), nil, 0)
+	if err != nil {
+		return nil
+	}
+	want := map[string]bool{"Get": true, "FilterLogs": true, "handleEthereumEvent": true, "Put": true, "Sleep": true}
+	var out []string
+	for _, d := range f.Decls {
+		fd, ok := d.(*ast.FuncDecl)
+		if !ok || fd.Name.Name != "Start" || fd.Body == nil {
+			continue
+		}
+		ast.Inspect(fd.Body, func(n ast.Node) bool {
+			ce, ok := n.(*ast.CallExpr)
+			if !ok {
+				return true
+			}
+			if se, ok := ce.Fun.(*ast.SelectorExpr); ok && want[se.Sel.Name] {
+				out = append(out, se.Sel.Name)
+			}
+			return true
+		})
+	}
+	return out
 }
